@@ -9,7 +9,7 @@ import (
 var c08Templates = [][]string{
 	// 0: prints, let, if, foreach, call with data=all and params, across two files
 	{"{namespace a}\n/** @param x\n @param l\n @param m */\n{template .t}\n{$x}{let $y: $x /}{if $x}[{$y}]{/if}{foreach $i in $l}{$i}{isLast($i) ? '' : ','}{ifempty}none{/foreach}" +
-		"{call b.u data=\"all\"}{param p: $x /}{param q}<{$x}>{/param}{/call}{call .v data=\"$m\" /}\n{/template}\n/** @param? k */\n{template .v}\n({$k}){let $k2: 1/}{$k2}\n{/template}\n",
+		"{call b.u data=\"all\"}{param p: $x /}{param q}<{$x}>{/param}{/call}{call .v data=\"$m\" /}{call .v data=\"$m ?: $m\"}{param k: $x /}{param j}c{/param}{/call}{call .v data=\"$x ? $m : $m\"}{param j: 1 /}{/call}{call .v data=\"$m\"}{param k: 2 /}{/call}\n{/template}\n/** @param? k\n @param? j */\n{template .v}\n({$k}{$j ?: ''}){let $k2: 1/}{$k2}\n{/template}\n",
 		"{namespace b}\n/** @param x\n @param p\n @param q\n @param l */\n{template .u}\n{$p}{$q|noAutoescape}{let $x2: $x /}{foreach $j in $l}{$j}{/foreach}{$x2|escapeUri}\n{/template}\n"},
 	// 1: msg, css, switch, literal, globals-free expressions, map/list literals
 	{"{namespace a}\n/** @param x\n @param l */\n{template .t}\n{foreach $e in $l}{$e}{/foreach}{msg desc=\"d\"}Hi <b>{$x}</b>{/msg}{css $x, c}{switch $x}{case 'a'}A{default}D{/switch}" +
